@@ -83,6 +83,45 @@ def units(tier):
         return obs
     u["ports"] = Unit("ports", PROP, ports, functions=["aioswitcher.api.SWITCHER_DEVICE_TO_TCP_PORT", "aioswitcher.bridge.SWITCHER_DEVICE_TO_UDP_PORT"])
 
+    def stateless(ip, ctx):
+        """the consistency must hold at any time, not only in a fresh process: the class guards may depend on nothing but the
+        device type (no module-level switch), and using the library (building bridges / API objects with default arguments)
+        must not rewrite the tables"""
+        import ast
+        obs = []
+        allowed = {"self", "super", "DeviceCategory", "ValueError", "datetime", "field", "None"}
+        dm = P().modules["aioswitcher.device"]
+        for cname in CLASS_CATEGORY:
+            c = dm.classes[cname]
+            pi = c.methods.get("__post_init__")
+            names = {n.id for n in ast.walk(pi.node) if isinstance(n, ast.Name)} if pi else set()
+            deco = [d for d in (pi.decorators if pi else [])]
+            obs.append(Obligation(f"{PROP}/{cname}/guard_reads_only_the_device_type", ctx, pi is not None and names <= allowed and not deco,
+                                  note=f"other names read: {sorted(names - allowed)} decorators: {deco}"))
+        for mn in ("aioswitcher.device", "aioswitcher.api", "aioswitcher.bridge"):
+            m = P().modules[mn]
+            obs.append(Obligation(f"{PROP}/static/{mn}/no_global_or_nonlocal", ctx, not m.has_global_stmt))
+        # default construction of the public objects leaves the tables alone
+        from pyvc.interp import EnvObj
+        b = ip.instantiate(cls("aioswitcher.bridge.SwitcherBridge"), [EnvObj("callback")], {}, ctx)
+        b2 = ip.instantiate(cls("aioswitcher.bridge.SwitcherBridge"), [EnvObj("callback")], {}, ctx)
+        a1 = ip.instantiate(cls("aioswitcher.api.SwitcherType1Api"), ["192.0.2.1", "ab1234", "00"], {}, ctx)
+        a2 = ip.instantiate(cls("aioswitcher.api.SwitcherType2Api"), ["192.0.2.1", "ab1234", "00"], {}, ctx)
+        obs.append(Obligation(f"{PROP}/construction_assigns_no_module_state", ctx, not ctx.ghost.module_writes, note=str(ctx.ghost.module_writes[:3])))
+        ports = b.attrs.get("_broadcast_ports")
+        ports2 = b2.attrs.get("_broadcast_ports")
+        obs.append(Obligation(f"{PROP}/default_bridge_ports_cover_both_protocol_types_every_time", ctx,
+                              hasattr(ports, "items") and hasattr(ports2, "items") and {20002, 20003} <= set(ports.items) and ports.items == ports2.items,
+                              note=str(getattr(ports2, "items", None))))
+        obs.append(Obligation(f"{PROP}/api_default_ports", ctx, a1.attrs.get("_port") == 9957 and a2.attrs.get("_port") == 10000))
+        tcp = module_const(ip, "aioswitcher.api", "SWITCHER_DEVICE_TO_TCP_PORT", ctx)
+        udp = module_const(ip, "aioswitcher.bridge", "SWITCHER_DEVICE_TO_UDP_PORT", ctx)
+        for t in DT:
+            obs.append(Obligation(f"{PROP}/ports_after_use/{t.name}", ctx, tcp.d.get(t.category) == PORTS[t.protocol_type]["tcp"] and
+                                  udp.d.get(t.category) == PORTS[t.protocol_type]["udp"]))
+        return obs
+    u["stateless"] = Unit("stateless", PROP, stateless)
+
     def canary(ip, ctx):
         return [Obligation(PROP + "/_canary/breeze_is_type1", ctx, DT.BREEZE.protocol_type == 1)]
     u["_canary"] = Unit("_canary", PROP, canary)
@@ -96,4 +135,4 @@ def replay_case(o):
 
 
 def native_cases(tier, seed):
-    return [{"prop": PROP, "kind": "table", "inputs": {}}]
+    return [{"prop": PROP, "kind": "table", "inputs": {}}, {"prop": PROP, "kind": "after_use", "inputs": {}}]
